@@ -294,6 +294,16 @@ func evalC15(c c15Case) (fl *Failure) {
 		select {
 		case err := <-errCh:
 			if err != nil {
+				if strings.Contains(err.Error(), "address already in use") {
+					ours := false
+					for _, p := range ports {
+						ours = ours || holdsListener(p)
+					}
+					if !ours {
+						srv.Stop()
+						return failf("harness|port-taken", "%s: %s: another process took a port: %v", what, when, err)
+					}
+				}
 				return failf("c15|start-error", "%s: %s: Start returned %v", what, when, err)
 			}
 		case <-time.After(stepTimeout):
